@@ -284,3 +284,13 @@ package strategy
 //@ ensures[C03] consumed(c) == len(c)
 //@ use nlast_hold(res(MajorityStrategy_Compute), len(res(MajorityStrategy_Compute)) - len(arg(ActionsToAnnotations, 0, 0)), len(res(MajorityStrategy_Compute)) - len(arg(ActionsToAnnotations, 0, 0)))
 //@ use nlast_skip(res(MajorityStrategy_Compute), arg(ActionsToAnnotations, 0, 0), len(res(MajorityStrategy_Compute)) - len(arg(ActionsToAnnotations, 0, 0)))
+
+// ---- generated constructor contracts (govc genctor; do not edit by hand) ----
+// what each New* function returns, read off its literal: fresh, pairwise separate sub-objects, fields equal to the
+// arguments / constants they are initialised with (transitively through nested constructors); proved, not assumed
+//@ func NewBuyAndHoldStrategy
+//@ ensures[C06] "fresh-and-separate-objects" fresh(result)
+
+//@ func NewMajorityStrategy
+//@ ensures[C06] "fresh-and-separate-objects" fresh(result)
+// ---- end of generated constructor contracts ----
